@@ -50,11 +50,84 @@ def c01(full):
     A += [argv('LPUSH', 'k', 'a'), argv('SADD', 'l', 'a'), argv('HSET', 'k', 'f', 'v')]
     return A
 
+def c03(full):
+    E = ['a', 'b']
+    IDX = ['0', '1', '-1', '2', '-2', '-3', 'x'] if full else ['0', '1', '-1', '-3']
+    A = []
+    for k in K:
+        for e in E:
+            A += [argv('LPUSH', k, e), argv('RPUSH', k, e), argv('SADD', k, e), argv('SREM', k, e), argv('SISMEMBER', k, e),
+                  argv('HSET', k, e, 'v'), argv('HSET', k, e, 'w'), argv('HDEL', k, e), argv('HGET', k, e), argv('HEXISTS', k, e),
+                  argv('HINCRBY', k, e, '1')]
+            for i in IDX[:4]:
+                A += [argv('LSET', k, i, e), argv('LREM', k, i, e)]
+        A += [argv('LPUSH', k, 'a', 'b'), argv('RPUSH', k, 'a', 'a'), argv('LPOP', k), argv('RPOP', k), argv('LLEN', k),
+              argv('SADD', k, 'a', 'b', 'a'), argv('SMEMBERS', k), argv('SCARD', k), argv('SPOP', k), argv('SPOP', k, '2'),
+              argv('SPOP', k, '0'), argv('SPOP', k, '-1'), argv('SRANDMEMBER', k), argv('SRANDMEMBER', k, '2'), argv('SRANDMEMBER', k, '-2'),
+              argv('HSET', k, 'a', 'v', 'a', 'w'), argv('HSET', k, 'a'), argv('HMSET', k, 'a', '1', 'b', 'x'), argv('HMGET', k, 'a', 'z'),
+              argv('HGETALL', k), argv('HLEN', k), argv('HKEYS', k), argv('HVALS', k), argv('HDEL', k, 'a', 'b'),
+              argv('HINCRBY', k, 'a', I64MAX), argv('HINCRBY', k, 'a', 'x'), argv('DEL', k), argv('TYPE', k), argv('SET', k, 'v'),
+              argv('EXPIRE', k, '100'), argv('TTL', k), argv('LPUSH', k), argv('SADD', k), argv('LRANGE', k, '0')]
+        for i in IDX:
+            A.append(argv('LINDEX', k, i))
+            for j in IDX:
+                A += [argv('LRANGE', k, i, j), argv('LTRIM', k, i, j)]
+    A += [argv('SUNION', 'k', 'l'), argv('SINTER', 'k', 'l'), argv('SDIFF', 'k', 'l'), argv('SDIFF', 'l', 'k'), argv('SUNION', 'z', 'k'),
+          argv('SINTER', 'z', 'k'), argv('SDIFF', 'z', 'k'), argv('SINTER', 'k', 'k'), argv('SUNION'), argv('KEYS', '*')]
+    return A
+
+def c04(full):
+    M = ['a', 'b', 'c'] if full else ['a', 'b']
+    SC = ['-inf', '-1', '0', '-0', '1', '1.001', 'inf'] if full else ['-inf', '0', '1', 'inf']
+    A = []
+    k = 'k'
+    for m in M:
+        for s in SC:
+            A.append(argv('ZADD', k, s, m))
+        A += [argv('ZREM', k, m), argv('ZSCORE', k, m), argv('ZRANK', k, m), argv('ZREVRANK', k, m),
+              argv('ZINCRBY', k, '1', m), argv('ZINCRBY', k, '-inf', m), argv('ZINCRBY', k, 'inf', m), argv('ZINCRBY', k, 'nan', m),
+              argv('ZADD', k, 'nan', m), argv('ZADD', k, 'x', m)]
+    A += [argv('ZADD', k, '1', 'a', 'nan', 'b'), argv('ZADD', k, '1', 'a', '2', 'b'), argv('ZADD', k, '1', 'a', '1'), argv('ZCARD', k),
+          argv('ZPOPMIN', k), argv('ZPOPMAX', k), argv('ZPOPMIN', k, '2'), argv('ZPOPMAX', k, '0'), argv('ZREM', k, 'a', 'b'),
+          argv('SET', k, 'v'), argv('DEL', k), argv('TYPE', k)]
+    IDX = ['0', '1', '-1', '-2', '5', '-5'] if full else ['0', '1', '-1', '5']
+    for i in IDX:
+        for j in IDX:
+            A += [argv('ZRANGE', k, i, j), argv('ZREVRANGE', k, i, j, 'WITHSCORES')]
+    B = ['-inf', '0', '1', 'inf', 'nan'] if full else ['-inf', '0', 'inf']
+    for lo in B:
+        for hi in B:
+            A += [argv('ZRANGEBYSCORE', k, lo, hi), argv('ZREVRANGEBYSCORE', k, hi, lo, 'WITHSCORES'), argv('ZCOUNT', k, lo, hi)]
+    return A
+
+def txn(full):
+    A = [argv('MULTI'), argv('EXEC'), argv('DISCARD'), argv('WATCH', 'k'), argv('UNWATCH'),
+         argv('SET', 'k', 'a'), argv('INCR', 'k'), argv('GET', 'k'), argv('DEL', 'k'), argv('NOSUCH', 'k'), argv('SELECT', '1')]
+    if full:
+        A += [argv('WATCH', 'k', 'l'), argv('SET', 'l', 'a'), argv('LPUSH', 'k', 'a'), argv('SELECT', '0'),
+              argv('SELECT', '16'), argv('FLUSHDB'), argv('FLUSHALL'), argv('RENAME', 'k', 'l'), argv('SADD', 'k', 'a'),
+              argv('EXPIRE', 'k', '100'), argv('PERSIST', 'k'), argv('SET', 'k', 'a', 'EX', '100'), argv('APPEND', 'k', ''),
+              argv('MULTI', 'x'), argv('EXEC', 'x')]
+    return A
+
+def auth():
+    return [argv('AUTH', 'pw'), argv('AUTH', 'p'), argv('AUTH', 'PW'), argv('AUTH'), argv('AUTH', 'pw', 'x'), argv('PING'),
+            argv('SET', 'k', 'a'), argv('GET', 'k'), argv('MULTI'), argv('EXEC'), argv('FLUSHALL'), argv('SELECT', '1'),
+            argv('WATCH', 'k'), argv('QUIT'), argv('NOSUCH')]
+
 def main():
     out = ['-------------------------------- MODULE Cats --------------------------------',
            '(* GENERATED by tools/gencat.py — argument-vector catalogues of the bounded instances. *)', '']
     out.append(cat('Cat_C01', c01(True)))
     out.append(cat('Cat_C01_quick', c01(False)))
+    out.append(cat('Cat_C03', c03(True)))
+    out.append(cat('Cat_C03_quick', c03(False)))
+    out.append(cat('Cat_C04', c04(True)))
+    out.append(cat('Cat_C04_quick', c04(False)))
+    out.append(cat('Cat_Txn', txn(True)))
+    out.append(cat('Cat_Txn_quick', txn(False)))
+    out.append(cat('Cat_Auth', auth()))
+    out.append('Pw == ' + lit('pw'))
     out.append('=============================================================================')
     p = os.path.join(os.path.dirname(os.path.abspath(__file__)), '..', 'spec', 'mc', 'Cats.tla')
     open(p, 'w').write('\n'.join(out) + '\n')
